@@ -128,6 +128,10 @@ def r16_2(run):
     want = ["kw['nickname']", "kw['idhash']", "kw['orhash']", "kw['modified']", "kw['ip']", "kw['orport']", "kw['dirport']"]
     ok = len(uc) == 1 and [src(a) for a in uc[0].args] == want
     run.ob('R16.2', cr, uc[0] if uc else cr.node, 'nickname, identity, address and ports come from the current entry', ok, slot='update-args', message='router.update(%s)' % ([src(a) for a in uc[0].args] if uc else ''))
+    for c in uc:
+        for n in g.nodes_containing(c):
+            run.ob('R16.2', cr, c, 'every entry refreshes nickname, address and ports of its (possibly re-used) Router', _unconditional(g, n), slot='update-unconditional',
+                   message='_create_router calls router.update(...) only on some paths: a re-used Router keeps nickname / address / ports of an earlier document')
     params = upd.params[1:]
     assigns = dict((dotted(n.targets[0]), dotted(n.value)) for n in walk_unit(upd) if isinstance(n, ast.Assign) and dotted(n.value) in params)
     ok = assigns.get('self.name') == params[0] and assigns.get('self.ip') == params[4] and assigns.get('self.or_port') == params[5] and assigns.get('self.dir_port') == params[6]
@@ -320,6 +324,7 @@ RULES = [
 from ..selftest import M  # noqa: E402
 FT, FP, FR = 'txtorcon/torstate.py', 'txtorcon/_microdesc_parser.py', 'txtorcon/router.py'
 MUTANTS = [
+    M('update-only-for-new', FT, "            router = Router(self.protocol)\n\n        self.routers[id_hex] = router\n        router.from_consensus = True\n        router.update(", "            router = Router(self.protocol)\n\n        self.routers[id_hex] = router\n        router.from_consensus = True\n        if router.id_hex is None:\n          router.update(", ['R16.2']),
     M('guards-not-reset', FT, "            self.guards = dict()\n            self.authorities = dict()\n", "            self.authorities = dict()\n", ['R16.1']),
     M('by-name-not-reset', FT, "            self.routers_by_name = dict()\n", "", ['R16.1']),
     M('no-done', FT, "            self._network_status_parser.done()\n", "", ['R16.1']),
